@@ -11,10 +11,12 @@ def main(tier, seed, replay=None):
         return cc.replay_file(replay)
     q = tier == 'quick'
     e1 = [cl.Config(n=2, crash=1, restart=1, cut=1, rounds=9),
+          cl.Config(n=3, crash=1, rounds=7, hold=True, sync=('TIMEOUT',)),
           cl.Config(n=2, crash=1, restart=1, cut=1, rounds=9, t=3, auto_fence=True, sync=('LIST', 'TIMEOUT')),
           cl.Config(n=3, crash=1, rounds=8, auto_fence=True, sync=('LIST', 'TIMEOUT'))]
     if not q:
         e1 += [cl.Config(n=3, crash=1, restart=1, rounds=11, t=3),
+               cl.Config(n=3, crash=1, restart=1, rounds=7, hold=True, sync=('TIMEOUT',)),
                cl.Config(n=2, slow=[(1, 2)], crash=1, rounds=9),
                cl.Config(n=2, crash=1, restart=1, cut=1, rounds=11),
                cl.Config(n=3, cut=1, rounds=11, auto_fence=True, sync=('LIST', 'TIMEOUT')),
@@ -30,5 +32,6 @@ def main(tier, seed, replay=None):
     return cc.run('C07', tier, seed, LABELS, [], e1, [], ['StepsC07'], sim, rnd,
                   n_beh=48 if q else 400, beh_depth=150, n_rnd=40 if q else 400, rnd_steps=250,
                   e1_timeout=600 if q else 2400, inject=False,
+                  extra_scenarios=[cl.hold_distribution_scenarios],
                   notes=['the process part of C07 (processes of a lost instance become FATAL) is decided with C11 '
                          '(Invalidate) and C12'])
